@@ -14,7 +14,10 @@ reader `Lock::to_graph` / `parse_pkg_dep_line` / `Pinned::from_str`). `Ext` = th
 `WFPinned` / `WFGraph` are decidable and *discovered*: each conjunct has a `not_wf_witness` below —
 an input violating only that conjunct for which the round trip fails in the model. Every witness is
 also a line of `corpus/c20.txt`, replayed on the real code at every run (model and code agree on how
-it fails). Classification (finding vs. assumption) is in `checks/c20.py`.
+it fails). Two classes: (a) ASSUMPTION — the conjunct is enforced by a validating function of forc or a
+type invariant (`AssumedPinned` / `AssumedGraph`); (b) KNOWN FINDING — reachable from a real manifest, the
+real round trip fails, the check reports it (`prop=0 why=<conjunct>`, `known_findings.json` id
+`C20-<conjunct>`). The theorems keep the full `WFGraph` hypothesis.
 -/
 namespace SwayVerif.C20
 open SwayVerif.Lock
@@ -71,15 +74,14 @@ theorem C20_roundtrip (ext : Ext) (g : Graph) (h : WFGraph ext g = true) :
     ∃ g', toGraph ext (fromGraph g) = .ok g' ∧ g.equiv g' :=
   C20_roundtrip_any_order ext g h (fromGraph g) (List.Perm.refl _)
 
-/-- The decidable predicate the driver evaluates on the implementation's result holds of the model. -/
-theorem C20_prop_of_model (ext : Ext) (g : Graph) : c20PropHolds ext g (toGraph ext (fromGraph g)) = true := by
+/-- The decidable predicate the driver evaluates on the implementation's result holds of the model
+for every well-formed graph. (It does NOT hold for the class (b) graphs — the known findings below.) -/
+theorem C20_prop_of_model (ext : Ext) (g : Graph) (h : WFGraph ext g = true) :
+    c20PropHolds ext g (toGraph ext (fromGraph g)) = true := by
+  obtain ⟨g', hok, he⟩ := C20_roundtrip ext g h
   unfold c20PropHolds
-  split
-  · rename_i h
-    obtain ⟨g', hok, he⟩ := C20_roundtrip ext g h
-    rw [hok]
-    exact (equivB_iff g g').mpr he
-  · rfl
+  rw [hok]
+  simp [(equivB_iff g g').mpr he]
 
 /-! ## Non-vacuity -/
 
@@ -96,45 +98,47 @@ example : parsePkgDepLine (pkgDepLine (some "std2".toList) "std".toList (Pinned.
 
 /-! ## `not_wf_witness`: every conjunct of `WFPinned` is needed -/
 
-/-- git: the repo string must re-parse to itself (`ext.url repo = some repo`). -/
+/-- (a) assumption on `gix_url` — git: the repo string must re-parse to itself (`ext.url repo = some repo`). -/
 example : let ext : Ext := ⟨fun s => some (s.map Char.toLower), fun s => some s, fun s => some s⟩
     let p := Pinned.git "HTTPS://h/x".toList .default commitA
     parsePinned ext p.display ≠ .ok p := by decide
-/-- git: `?` in the URL. -/
+/-- (b) KNOWN FINDING `C20-git-url-qmark` — git: `?` in the URL. -/
 example : let p := Pinned.git "https://x/y?z=1".toList .default commitA
     parsePinned idExt p.display = .err := by decide
-/-- git: `#` in a branch / tag name. -/
+/-- (b) KNOWN FINDING `C20-git-ref-hash` — git: `#` in a branch / tag name. -/
 example : let p := Pinned.git "https://x/y".toList (.branch "a#b".toList) commitA
     parsePinned idExt p.display = .err := by decide
 example : let p := Pinned.git "https://x/y".toList (.tag "v#1".toList) commitA
     parsePinned idExt p.display = .err := by decide
-/-- git: `Rev(s)` is printed as `rev` and re-read as `Rev(commit_hash)`. -/
+/-- (b) KNOWN FINDING `C20-git-rev-not-commit` — git: `Rev(s)` is printed as `rev` and re-read as `Rev(commit_hash)`. -/
 example : let p := Pinned.git "https://x/y".toList (.rev "abc123".toList) commitA
     parsePinned idExt p.display = .ok (.git "https://x/y".toList (.rev commitA) commitA) := by decide
-/-- git: a commit hash that is not 40 ASCII alphanumerics. -/
+/-- (a) assumption (`git::pin`: `git2::Oid::to_string`) — git: a commit hash that is not 40 ASCII alphanumerics. -/
 example : let p := Pinned.git "https://x/y".toList .default "abc123".toList
     parsePinned idExt p.display = .err := by decide
-/-- path: the id must fit `u64` (type invariant of `PinnedId`). -/
+/-- (a) assumption — path: the id must fit `u64` (type invariant of `PinnedId`). -/
 example : parsePinned idExt (Pinned.path (2 ^ 64)).display = .ok (.path 0) := by decide
-/-- ipfs: the CID string must re-parse to itself / consist of multibase text. -/
+/-- (a) assumption on `cid` — ipfs: the CID string must re-parse to itself / consist of multibase text. -/
 example : let ext : Ext := ⟨fun s => some s, fun _ => none, fun s => some s⟩
     parsePinned ext (Pinned.ipfs cidA).display = .err := by decide
 example : parsePinned idExt (Pinned.ipfs "Qm ".toList).display = .ok (.ipfs "Qm".toList) := by decide
-/-- registry: `?` in the package name. -/
+/-- (a) assumption (`validate_package_name`, `validate_dep_manifest`) — registry: `?` in the package name. -/
 example : parsePinned idExt (Pinned.registry "x?y".toList "0.0.1".toList cidA none).display =
     .ok (.registry "x".toList "y?0.0.1".toList cidA none) := by decide
-/-- registry: the version must re-parse to itself / must not contain `#`. -/
+/-- (a) assumption on `semver` — registry: the version must re-parse to itself / must not contain `#`. -/
 example : let ext : Ext := ⟨fun s => some s, fun s => some s, fun _ => none⟩
     parsePinned ext (Pinned.registry "x".toList "0.0.1".toList cidA none).display = .err := by decide
 example : parsePinned idExt (Pinned.registry "x".toList "0.0#1".toList cidA none).display = .err := by decide
-/-- registry: the CID must re-parse to itself, be multibase text and pass `validate_cid` (CIDv0 only). -/
+/-- registry: the CID must re-parse to itself and be multibase text ((a), `cid`); it must pass
+`validate_cid`, CIDv0 only — (b) KNOWN FINDING `C20-reg-cid-not-v0` (third example). -/
 example : let ext : Ext := ⟨fun s => some s, fun _ => none, fun s => some s⟩
     parsePinned ext (Pinned.registry "x".toList "0.0.1".toList cidA none).display = .err := by decide
 example : parsePinned idExt (Pinned.registry "x".toList "0.0.1".toList (cidA.take 45 ++ ['!']) none).display ≠
     .ok (Pinned.registry "x".toList "0.0.1".toList (cidA.take 45 ++ ['!']) none) := by decide
 example : parsePinned idExt (Pinned.registry "x".toList "0.0.1".toList
     "bafybeigdyrzt5sfp7udm7hu76uh7y26nf3efuylqabf3oclgtqy55fbzdi".toList none).display = .err := by decide
-/-- registry: `Domain("")` is re-read as `Flat`; `#`, `!` or trailing whitespace in the namespace. -/
+/-- (b) KNOWN FINDINGS `C20-reg-ns-empty` (`Domain("")` is re-read as `Flat`) and `C20-reg-ns-chars`
+(`#`, `!` or trailing whitespace in the namespace). -/
 example : parsePinned idExt (Pinned.registry "x".toList "0.0.1".toList cidA (some [])).display =
     .ok (.registry "x".toList "0.0.1".toList cidA none) := by decide
 example : parsePinned idExt (Pinned.registry "x".toList "0.0.1".toList cidA (some "a#b".toList)).display =
@@ -167,29 +171,30 @@ def gOK : Graph :=
 example : WFGraph idExt gOK = true := by decide
 example : rtOK idExt gOK = true := by decide
 
-/-- name: empty. -/
+/-- (a) assumption (`validate_project_name`) — name: empty. -/
 def gW1 : Graph := ⟨[pk "a" .member, pk "" (.path 1)], [ed 0 1 "" (.contract saltA)]⟩
-/-- name: contains a space (collides with another package's `<name> <source>` key). -/
+/-- (a) — name: contains a space (collides with another package's `<name> <source>` key). -/
 def gW2 : Graph := ⟨[pk "a" .member, pk "a" (.path 1), pk "a member" (.path 2)], [ed 1 0 "a" .library]⟩
-/-- name: contains `(`. -/
+/-- (a) — name: contains `(`. -/
 def gW3 : Graph := ⟨[pk "a" .member, pk "a(b" (.path 1)], [ed 0 1 "a(b" .library]⟩
-/-- name: starts / ends with whitespace. -/
+/-- (a) — name: starts / ends with whitespace. -/
 def gW4 : Graph := ⟨[pk "a" .member, pk "\tb" (.path 1)], [ed 0 1 "\tb" .library]⟩
 def gW5 : Graph := ⟨[pk "a" .member, pk "b\t" (.path 1)], [ed 0 1 "b\t" .library]⟩
-/-- source: not `WFPinned` (`#` in a branch name). -/
+/-- (b) KNOWN FINDING `C20-git-ref-hash` — source: not `WFPinned` (`#` in a branch name). -/
 def gW6 : Graph := ⟨[pk "a" (gitP "a#b")], []⟩
-/-- source string contains `(` and the package needs disambiguation. -/
+/-- (b) KNOWN FINDING `C20-paren-in-source` — source string contains `(` and the package needs disambiguation. -/
 def gW7 : Graph := ⟨[pk "a" .member, pk "a" (gitP "x(y"), pk "b" .member], [ed 2 1 "a" .library]⟩
-/-- two nodes with the same name and the same source string. -/
+/-- (b) KNOWN FINDING `C20-duplicate-node` — two nodes with the same name and the same source string
+(two path packages of the same name under one root; two git nodes differing only in the `Rev` string). -/
 def gW8 : Graph := ⟨[pk "a" .member, pk "a" .member], []⟩
-/-- dangling edge (excluded by petgraph). -/
+/-- (a) assumption — dangling edge (excluded by petgraph). -/
 def gW9 : Graph := ⟨[pk "a" .member], [ed 0 5 "x" .library]⟩
 def gW10 : Graph := ⟨[pk "a" .member], [ed 5 0 "x" .library]⟩
-/-- dependency name contains `)`. -/
+/-- (b) KNOWN FINDING `C20-dep-name-paren` — dependency name contains `)`. -/
 def gW11 : Graph := ⟨[pk "a" .member, pk "b" (.path 1)], [ed 0 1 "d)e" .library]⟩
-/-- salt that is not the canonical 64 lower-case hex digits (excluded by `fuel_tx::Salt`). -/
+/-- (a) assumption — salt that is not the canonical 64 lower-case hex digits (excluded by `fuel_tx::Salt`). -/
 def gW12 : Graph := ⟨[pk "a" .member, pk "b" (.path 1)], [ed 0 1 "b" (.contract "ABC".toList)]⟩
-/-- two edges between the same ordered pair. -/
+/-- (a) assumption (`fetch_deps` uses `update_edge`) — two edges between the same ordered pair. -/
 def gW13 : Graph := ⟨[pk "a" .member, pk "b" (.path 1)], [ed 0 1 "x" .library, ed 0 1 "y" .library]⟩
 
 example : WFGraph idExt gW1 = false ∧ rtOK idExt gW1 = false := by decide
@@ -205,5 +210,39 @@ example : WFGraph idExt gW10 = false ∧ rtOK idExt gW10 = false := by decide
 example : WFGraph idExt gW11 = false ∧ rtOK idExt gW11 = false := by decide
 example : WFGraph idExt gW12 = false ∧ rtOK idExt gW12 = false := by decide
 example : WFGraph idExt gW13 = false ∧ rtOK idExt gW13 = false := by decide
+
+/-! ## Known findings (class (b)): the assumptions hold, the property's predicate fails — in the model
+exactly as on the real code (`corpus/c20.txt`, same graphs). -/
+
+def failsProp (g : Graph) : Bool :=
+  AssumedGraph idExt g && !(c20PropHolds idExt g (toGraph idExt (fromGraph g)))
+
+def one (s : Pinned) : Graph := ⟨[pk "a" s], []⟩
+def regP (cid : Str) (ns : Option String) : Pinned := .registry "x".toList "0.0.1".toList cid (ns.map String.toList)
+
+/-- `C20-git-ref-hash` -/
+example : failsProp gW6 = true := by decide
+example : failsProp (one (.git "https://x/y".toList (.tag "v#1".toList) commitA)) = true := by decide
+/-- `C20-git-url-qmark` -/
+example : failsProp (one (.git "https://x/y?z=1".toList .default commitA)) = true := by decide
+/-- `C20-git-rev-not-commit` -/
+example : failsProp (one (.git "https://x/y".toList (.rev "abc123".toList) commitA)) = true := by decide
+/-- `C20-reg-cid-not-v0` -/
+example : failsProp (one (regP "bafybeigdyrzt5sfp7udm7hu76uh7y26nf3efuylqabf3oclgtqy55fbzdi".toList none)) = true := by decide
+/-- `C20-reg-ns-empty`, `C20-reg-ns-chars` -/
+example : failsProp (one (regP cidA (some ""))) = true := by decide
+example : failsProp (one (regP cidA (some "a#b"))) = true := by decide
+example : failsProp (one (regP cidA (some "a!b"))) = true := by decide
+example : failsProp (one (regP cidA (some "a "))) = true := by decide
+/-- `C20-paren-in-source` -/
+example : failsProp gW7 = true := by decide
+/-- `C20-duplicate-node` -/
+example : failsProp gW8 = true := by decide
+example : failsProp ⟨[pk "a" (.git "https://x/y".toList (.rev "abc123".toList) commitA),
+    pk "a" (.git "https://x/y".toList (.rev "abc1234".toList) commitA), pk "b" .member], [ed 2 0 "a" .library]⟩ = true := by decide
+/-- `C20-dep-name-paren` -/
+example : failsProp gW11 = true := by decide
+/-- The class (a) witnesses are outside `AssumedGraph`: nothing is demanded of them. -/
+example : [gW1, gW2, gW3, gW4, gW5, gW9, gW10, gW12, gW13].all (fun g => !AssumedGraph idExt g) = true := by decide
 
 end SwayVerif.C20
